@@ -14,6 +14,15 @@ P = {
     text="Bounded symbolic check: the real decompose_for_tropical, instantiated with a term-building scalar, is executed on a fully symbolic symmetric matrix (n=1..6 quick, 1..8 thorough; all entries solver variables); every entry of Q^T Q = M, Q^-T Q^T = I, inverse*M = I, det = det M, triangularity and positive diagonal is discharged by z3 as an unsat query under 'every Cholesky pivot > 0' (tied to Sylvester's criterion by further queries), so it holds for every SPD matrix of those sizes in exact arithmetic. Unit tests sample two matrices.",
     design_ref="§6 C15", technique="symbolic execution of the generic code (T=Sym) + z3 QF_NRA, per-entry unsat queries", note=SYMX_NOTE),
 }
+def sx(text, ref, tech="symbolic execution of the generic code (T=Sym) over all sector paths + z3 QF_NRA/QF_UFNRA queries, native replay"):
+    return dict(text=text, design_ref=ref, technique=tech, note=SYMX_NOTE)
+P.update({
+ "C08": sx("Bounded symbolic check over the catalogue graphs (L<=2 quick, L<=5 thorough, 2-4 cycle bases each): sample() is executed with a term-building scalar on every sector path; with the Feynman parameters abstracted to arbitrary positive reals (abstraction justified by a query on each path) z3 proves L[i][j] = sum_e x_e s_ei s_ej, symmetry, and u = Kirchhoff polynomial from an independent spanning-tree enumeration.", "§6 C08"),
+ "C09": sx("As C08, with masses, external momenta and loop-momentum offsets as solver variables: z3 proves v*u = F (2-forest polynomial from an independent enumeration) and u_vectors = sum x s p for every routing against one routing-free specification; inverse and determinant are abstracted by proved relations (INV*U = adj(L), U = Kirchhoff).", "§6 C09"),
+ "C10": sx("As C09: Gaussian vectors, lambda>0, Feynman parameters as free solver variables; z3 proves L*shift = u, Q^T(k+shift) = sqrt(v/2lambda) q, Q^-1 L Q^-T = I, k+shift = pref*Q^-T q, and the composite identity sum x(|q_e|^2+m^2) = v(1+|q|^2/2lambda) where it answers in time (reported otherwise).", "§6 C10"),
+ "C13": sx("Every Gaussian component of Metadata.q_vectors is proved equal to sqrt(-2 ln a) cos|sin(2 pi b) of its designated pair for D=1..6, L=1..3 (5 thorough) on every path, with ln/cos/sin uninterpreted (congruence) — any change in pairing, order or formula is a sat query that is replayed natively.", "§6 C13"),
+ "C14": sx("On every path of every catalogue graph: no index panic with get_dimension() coordinates, no Ok return with one fewer, three extra coordinates yield identical terms, dependency cones of Feynman parameters / lambda / Gaussian components contain only their designated coordinates (plus a solver self-composition query), and for every coordinate a solver-produced point on some feasible path shows the result changes when only that coordinate changes.", "§6 C14", "symbolic execution + self-composition queries (z3), dependency cones of the term DAG"),
+})
 NA_PENDING = "check not built yet at this commit (planned, see DESIGN.md §6); not claimed"
 NA = {
  "C01": "integral identity over the whole hypercube (unbiasedness): not an assertion over one execution or a bounded set of executions; no bounded solver query expresses it (DESIGN §6 C01). The pointwise facts it needs are claimed under C04, C06-C11, C13.",
